@@ -1,6 +1,7 @@
 import LolHtml.Model.ThreadsCApi
 import LolHtml.Thm.C18_Threads
 import LolHtml.Lemmas.CApi
+import LolHtml.Model.CApiMiniR
 
 namespace LolHtml.Thm.C18
 open LolHtml LolHtml.Model.CApi LolHtml.Model.Threads LolHtml.Lemmas.Threads
@@ -564,5 +565,78 @@ theorem capiThreadParametric : capiThreadParametric_statement R := by
   | selectorFree s => exact topStep_Φ L t pol prog e _ rfl rfl
   | strFree v => exact topStep_Φ L t pol prog e _ rfl rfl
   | takeLastError dst => simp [isTake] at hop
+
+/-! ## The thread model over `capiSys` agrees with `CApi.run` -/
+
+/-- The calls of a multi-threaded C client on ONE session, as a schedule of the thread model (session `i`). -/
+def sessionSched {V : Type} {g0 : Nat → V} (pol : Policy) (prog : Prog) (i : Nat) (adv : (Nat → V) → Nat → V)
+    (cs : List (Call R.Chunk)) : List (Event (capiSys R pol prog V g0)) :=
+  cs.map fun c => ⟨c.tid, .inst i c.op, adv⟩
+
+omit L t in
+/-- For any assignment of the calls to threads: running the C-API model `CApi.run` (one environment, the real
+    thread ids, the real `LAST_ERROR` slots) and running the thread model over per-session steps give the same
+    session state and the same `LAST_ERROR` slots. (Calls other than `take_last_error`, which is thread-level in
+    the thread model; handlers that do not call it.) -/
+theorem capi_session_faithful {V : Type} {g0 : Nat → V} (items : List Item) (pol : Policy) (prog : Prog)
+    (hp : takeFree prog) (i : Nat) (adv : (Nat → V) → Nat → V) (cs : List (Call R.Chunk))
+    (hcs : ∀ c ∈ cs, isTake c.op = false) (e0 e' : Env R) (w : World (capiSys R pol prog V g0))
+    (hrun : Model.CApi.run pol prog e0 cs = .ok e') (hi : w.inst i = some (clearErr e0)) (hl : w.lastErr = e0.lastErr) :
+    (Model.Threads.run items w (sessionSched pol prog i adv cs)).inst i = some (clearErr e') ∧
+    (Model.Threads.run items w (sessionSched pol prog i adv cs)).lastErr = e'.lastErr := by
+  induction cs generalizing e0 w with
+  | nil =>
+    simp only [Model.CApi.run] at hrun
+    cases hrun
+    exact ⟨hi, hl⟩
+  | cons c rest ih =>
+    simp only [Model.CApi.run, Lemmas.CApi.Res.bind_ok] at hrun
+    obtain ⟨e1, h1, h2⟩ := hrun
+    obtain ⟨tid, op⟩ := c
+    have hop : isTake op = false := hcs ⟨tid, op⟩ (by simp)
+    obtain ⟨rec, hstep, hrec⟩ := capi_step_faithful (V := V) (g0 := g0) pol prog e0 e1 tid op hop
+      (capiThreadParametric pol prog hp e0 tid op hop) h1
+      (view items w tid)
+    refine ih (fun c hc => hcs c (by simp [hc])) e1 _ h2 ?_ ?_
+    · simp only [exec, call, disturb, upd, hi]
+      exact (if_pos trivial).trans (congrArg Prod.fst hstep)
+    · simp only [exec, call, disturb, hi, hl, hrec]
+      exact congrArg (fun r => record e0.lastErr tid r.2.2) hstep
+
+/-! ## Non-vacuity on the replay machine `MiniR` -/
+
+namespace CApiDemo
+open LolHtml.Model.CApi.Mini
+
+@[reducible] def S : Sys := capiSys MiniR .header (fun _ => ⟨[], none, 0⟩) Nat (fun _ => 0)
+def adv : (Nat → Nat) → Nat → Nat := fun g j => g j + 1
+
+/-- Two C sessions on three threads. Session 0 (thread 0) fails to parse a selector; thread 1, working on
+    session 1, sees no error and its own parse succeeds; session 0 is handed to thread 2, which frees the builder
+    (twice: the second call is rejected by the header's precondition); thread 0 still finds ITS error, thread 2
+    has none. -/
+def σ : List (Event S) := [
+  ⟨0, .inst 0 (.builderNew 0), adv⟩,
+  ⟨1, .inst 1 (.builderNew 0), adv⟩,
+  ⟨0, .inst 0 (.selectorParse 1 [0x61, 0x5b]), adv⟩,
+  ⟨1, .takeLastError, adv⟩,
+  ⟨1, .inst 1 (.selectorParse 1 [0x61]), adv⟩,
+  ⟨0, .migrate 0 2, adv⟩,
+  ⟨2, .inst 0 (.builderFree 0), adv⟩,
+  ⟨2, .inst 0 (.builderFree 0), adv⟩,
+  ⟨0, .takeLastError, adv⟩,
+  ⟨2, .takeLastError, adv⟩ ]
+
+example :
+    let W := run sourceItems (World.fresh S) σ
+    wellOwned (fun _ => none) σ = true ∧
+    W.obs 0 = [.notPermitted, .ok [.void, .ptr true, .ptr false] [] [], .ok [.ptr true, .ptr false] [] [],
+               .ok [.ptr false] [] []] ∧
+    W.obs 1 = [.ok [.ptr false, .ptr false] [] [], .ok [.ptr false] [] []] ∧
+    W.tobs 0 = [.taken (some (.rust [0x73]))] ∧ W.tobs 1 = [.taken none] ∧ W.tobs 2 = [.taken none] ∧
+    (seqRun S (instOps 0 σ)).2 = W.obs 0 := by
+  decide +kernel
+
+end CApiDemo
 
 end LolHtml.Thm.C18
